@@ -181,7 +181,7 @@ func childNodeReadRule(c *Ctx, rule string) {
 		if fn.Blocks == nil || strings.Contains(name, ".(*cache).") || strings.HasPrefix(name, pk+".holdsLocked") || strings.Contains(name, ".(*cache).remoteSync$") {
 			continue
 		}
-		for _, b := range fn.Blocks {
+		for _, b := range blocksIP(fn) {
 			for _, in := range b.Instrs {
 				u, ok := in.(*ssa.UnOp)
 				if !ok {
